@@ -698,6 +698,12 @@ func (x *Exec) load(st *State, l *Loc, T types.Type) Val {
 		return v
 	case LGlobal:
 		key := x.globalKey(l.Global)
+		if T == nil {
+			// loaded as the parent of an element access: the global's own type
+			if pt, ok := l.Global.Type().(*types.Pointer); ok {
+				T = pt.Elem()
+			}
+		}
 		t := x.heapGet(st, key, x.te.SortOf(T))
 		v := Val{T: t, Typ: T, Org: "global:" + l.Global.Pkg.Pkg.Name() + "." + l.Global.Name()}
 		x.loadFacts(st, v)
